@@ -123,6 +123,7 @@ type Options struct {
 	OnFS      func(ev FSEvent)
 	ClockWide bool // wide clock-delta distribution
 	Teardown  func(s *Sim)
+	OnStep    func(s *Sim) string // invariant checked by the scheduler while every task is stopped; non-empty = abort
 	OnEnd     func(s *Sim) // called by the scheduler when the run proper is over, before goroutines are released
 	// SkipFSClose: Close of a file is not a scheduling point (default true via !FSCloseEvent)
 	FSCloseEvent bool
@@ -162,6 +163,8 @@ type Sim struct {
 	SwitchPairs map[uint64]struct{}
 	SiteCount   [nSiteKinds]int
 	SelMulti    int // select draws with >1 case
+	AuxDraws    int
+	AuxSkips    int
 	PoolGets    int
 	PoolReuse   int
 	SimStart    time.Time
@@ -423,17 +426,26 @@ func mapHook1() (uint64, bool) {
 		return 0, false
 	}
 	var pcs [12]uintptr
-	n := runtime.Callers(2, pcs[:])
+	n := runtime.Callers(3, pcs[:])
+	if DebugMap != nil {
+		f := DebugMap
+		DebugMap = nil
+		f(pcs[:n])
+		DebugMap = f
+	}
 	for i := 0; i < n; i++ {
 		switch classify(pcs[i]) {
 		case clsRuntime:
 			continue
 		case clsSim:
+			s.AuxDraws++
 			return s.aux.Next(), true
 		default:
+			s.AuxSkips++
 			return 0, false
 		}
 	}
+	s.AuxSkips++
 	return 0, false
 }
 
@@ -583,6 +595,9 @@ func (s *Sim) poolOf(p *sync.Pool) *poolFree {
 	s.pool = append(s.pool, poolFree{p: p})
 	return &s.pool[len(s.pool)-1]
 }
+
+// DebugMap is a development aid (nil in normal operation).
+var DebugMap func(pcs []uintptr)
 
 var errKilled = fmt.Errorf("simrt: file mutation by a killed task refused")
 
@@ -982,6 +997,12 @@ func (s *Sim) loop() {
 				return
 			}
 		}
+		if s.Opt.OnStep != nil {
+			if msg := s.Opt.OnStep(s); msg != "" {
+				s.Abort = "invariant: " + msg
+				return
+			}
+		}
 		if s.clientsDone() {
 			return
 		}
@@ -1020,7 +1041,11 @@ func (s *Sim) loop() {
 		s.SiteCount[t.site.Kind]++
 		s.note(uint64(t.ID)<<40 ^ uint64(t.site.Kind)<<32 ^ uint64(t.site.PC) ^ uint64(t.site.Op)<<24)
 		if s.Opt.Trace {
-			s.Log = append(s.Log, fmt.Sprintf("%d t%d %s %s", s.Steps, t.ID, siteNames[t.site.Kind], s.siteDesc(t.site)))
+			ids := ""
+			for _, x := range run {
+				ids += fmt.Sprintf("%d,", x.ID)
+			}
+			s.Log = append(s.Log, fmt.Sprintf("%d t%d %s %s run[%s] h%x aux%d/%d\n", s.Steps, t.ID, siteNames[t.site.Kind], s.siteDesc(t.site), ids, s.Hash&0xffff, s.AuxDraws, s.AuxSkips))
 		}
 		if t.site.Kind == SiteFS {
 			time.Sleep(s.clockDelta())
